@@ -178,8 +178,26 @@ func (s *recStorage) StatBlobs(ctx context.Context, blobs []blob.Ref, fn func(bl
 	return err
 }
 
+// EnumerateBlobs reads the page from the store below and hands it over with plain
+// channel sends (the caller, blobserver.EnumerateAllFrom, drains dest until it is
+// closed, whatever its callback returns): a goroutine dump then shows this goroutine
+// as [chan send] in this very function when its consumer has stopped for good.
 func (s *recStorage) EnumerateBlobs(ctx context.Context, dest chan<- blob.SizedRef, after string, limit int) error {
-	return s.inner.EnumerateBlobs(ctx, dest, after, limit)
+	defer close(dest)
+	ch := make(chan blob.SizedRef, 64)
+	errc := make(chan error, 1)
+	go func() { errc <- s.inner.EnumerateBlobs(ctx, ch, after, limit) }()
+	var page []blob.SizedRef
+	for sb := range ch {
+		page = append(page, sb)
+	}
+	if err := <-errc; err != nil {
+		return err
+	}
+	for _, sb := range page {
+		dest <- sb
+	}
+	return nil
 }
 
 func (s *recStorage) RemoveBlobs(ctx context.Context, blobs []blob.Ref) error {
@@ -200,29 +218,37 @@ type recKV struct {
 	inc   int
 	rec   *recorder
 	inner sorted.KeyValue
+	layer string // "queue" (default) or "queue2" (twin handler)
+}
+
+func (k *recKV) name() string {
+	if k.layer == "" {
+		return "queue"
+	}
+	return k.layer
 }
 
 func (k *recKV) Get(key string) (string, error) {
-	e := k.rec.begin(k.inc, "queue", "Get", key)
+	e := k.rec.begin(k.inc, k.name(), "Get", key)
 	v, err := k.inner.Get(key)
 	k.rec.end(e, 0, err)
 	return v, err
 }
 func (k *recKV) Set(key, value string) error {
-	e := k.rec.begin(k.inc, "queue", "Set", key)
+	e := k.rec.begin(k.inc, k.name(), "Set", key)
 	err := k.inner.Set(key, value)
 	k.rec.end(e, 0, err)
 	return err
 }
 func (k *recKV) Delete(key string) error {
-	e := k.rec.begin(k.inc, "queue", "Delete", key)
+	e := k.rec.begin(k.inc, k.name(), "Delete", key)
 	err := k.inner.Delete(key)
 	k.rec.end(e, 0, err)
 	return err
 }
 func (k *recKV) BeginBatch() sorted.BatchMutation { return k.inner.BeginBatch() }
 func (k *recKV) CommitBatch(b sorted.BatchMutation) error {
-	e := k.rec.begin(k.inc, "queue", "CommitBatch", "")
+	e := k.rec.begin(k.inc, k.name(), "CommitBatch", "")
 	err := k.inner.CommitBatch(b)
 	k.rec.end(e, 0, err)
 	return err
@@ -243,7 +269,7 @@ func (it *recIter) Close() error {
 	return err
 }
 func (k *recKV) Find(start, end string) sorted.Iterator {
-	e := k.rec.begin(k.inc, "queue", "Find", start)
+	e := k.rec.begin(k.inc, k.name(), "Find", start)
 	return &recIter{Iterator: k.inner.Find(start, end), k: k, e: e}
 }
 func (k *recKV) Close() error { return nil }
@@ -340,19 +366,21 @@ func (t *tapStats) corruptSends() (map[string]int, int) {
 // ------------------------------------------------------------------ world
 
 type world struct {
-	sc     *scenario
-	rec    *recorder
-	srcMem *memory.Storage
-	dstMem *memory.Storage // memory family
-	idxKV  sorted.KeyValue // index family
-	tap    *tapStats
-	qMem   sorted.KeyValue
-	live   *liveKV // qMem when the queue is a file-backed KV that is closed and re-opened at every restart
-	dir    string  // scratch directory of the file-backed queue
-	eff    *effLog
-	incs   []*incarnation
-	bmu    sync.Mutex
-	blobs  map[string]sto.Blob // every blob ever uploaded, by ref string
+	sc      *scenario
+	rec     *recorder
+	srcMem  *memory.Storage
+	dstMem  *memory.Storage // memory family
+	idxKV   sorted.KeyValue // index family
+	tap     *tapStats
+	qMem    sorted.KeyValue
+	dst2Mem *memory.Storage // twin handler's destination (family "twin")
+	q2Mem   sorted.KeyValue // twin handler's queue
+	live    *liveKV         // qMem when the queue is a file-backed KV that is closed and re-opened at every restart
+	dir     string          // scratch directory of the file-backed queue
+	eff     *effLog
+	incs    []*incarnation
+	bmu     sync.Mutex
+	blobs   map[string]sto.Blob // every blob ever uploaded, by ref string
 }
 
 func (w *world) blobOf(ref string) (sto.Blob, bool) {
@@ -371,7 +399,8 @@ type incarnation struct {
 	dstLow   *inject.Storage // lowest inject layer of dst: its StoredEvents = what the durable destination accepted
 	queue    *recKV
 	sh       *server.SyncHandler
-	err      error // constructor error
+	sh2      *server.SyncHandler // twin: a second handler on the same source object (own destination and queue)
+	err      error               // constructor error
 	// harnessErr: err is not the handler's refusal but a failure of the harness' own set-up
 	harnessErr bool
 	starter    int // id of the goroutine that ran the constructor (parent of the handler's goroutines)
@@ -389,6 +418,10 @@ func newWorld(sc *scenario) (*world, error) {
 		w.idxKV = sorted.NewMemoryKeyValue()
 	} else {
 		w.dstMem = &memory.Storage{}
+	}
+	if sc.Twin {
+		w.dst2Mem = &memory.Storage{}
+		w.q2Mem = sorted.NewMemoryKeyValue()
 	}
 	if sc.Queue != "" && sc.Queue != "memory" {
 		w.dir = ev.Scratch("c19-queue")
@@ -704,6 +737,26 @@ func (w *world) start(spec incSpec) *incarnation {
 		return inc
 	}
 	inc.sh = sh
+	if w.sc.Twin {
+		// a second sync handler over the very same source object (one hub, two receive hooks)
+		dst2 := &recStorage{layer: "dst2", inc: inc.n, rec: w.rec,
+			inner: inject.Wrap("dst2", inject.Wrap("dst2", w.dst2Mem, plan("dst2")), inc.freeze)}
+		q2 := &recKV{inc: inc.n, rec: w.rec, layer: "queue2",
+			inner: inject.WrapKV("queue2", inject.WrapKV("queue2", w.q2Mem, plan("queue2")), inc.freeze)}
+		kvCounter.Lock()
+		kvCounter.n++
+		name2 := fmt.Sprintf("c19-queue-%d", kvCounter.n)
+		kvCounter.Unlock()
+		q2conf := inject.RegisterKV(name2, q2)
+		defer inject.UnregisterKV(name2)
+		ld.Set("/dst2/", dst2)
+		h2, err := blobserver.CreateHandler("sync", ld, jsonconfig.Obj{"from": "/src/", "to": "/dst2/", "queue": map[string]any(q2conf)})
+		if err != nil {
+			inc.err = fmt.Errorf("twin handler: %w", err)
+			return inc
+		}
+		inc.sh2 = h2.(*server.SyncHandler)
+	}
 	return inc
 }
 
